@@ -105,7 +105,8 @@ C10(i) ==
      \cup (IF Cfg.generator = "toy_norot"                      \* "not rotated": tiles without any rotation
            THEN { <<"C10.wellformed_toy_not_rotated", TilesUnrotated(s)>> } ELSE {})
    ELSE {})
-  \cup (IF Cfg.generator = "random" THEN C10NonConstant(i, LAMBDA x : x.blocks) ELSE {})
+  \cup (IF Cfg.generator = "random" /\ NB > 1      \* (a 1 x 1 instance is necessarily the full 3x3 block)
+        THEN C10NonConstant(i, LAMBDA x : x.blocks) ELSE {})
   \cup (IF Cfg.generator # "random" /\ i = NEv             \* the toy generators are documented as deterministic
         THEN { <<"C10.toy_generator_deterministic", Cardinality({ Ev(j).s.blocks : j \in ResetLines }) = 1>> } ELSE {})
 
